@@ -218,8 +218,8 @@ async fn run(mut sim: Sim, seed: u64, streams: usize) -> Result<Value, String> {
             let mut trailing = 0usize;
             for _ in 0..12 {
                 if let Ok(Ok((mut tx, rx))) = tokio::time::timeout(Duration::from_secs(5), conn.open_bi()).await {
-                    let req = valid_request("/hostile/slow", &[("hostile", "1"), ("delay-ms", "4000")], b"x");
-                    let _ = tx.write_all(&req).await;
+                    let req = valid_request("/hostile/slow", &[("hostile", "1"), ("delay-ms", "20000")], b"x");
+                    let _ = tokio::time::timeout(Duration::from_millis(30), tx.write_all(&req)).await;
                     let chunk = vec![0u8; 64 * 1024];
                     for _ in 0..32 {
                         match tokio::time::timeout(Duration::from_millis(30), tx.write_all(&chunk)).await {
@@ -241,13 +241,17 @@ async fn run(mut sim: Sim, seed: u64, streams: usize) -> Result<Value, String> {
             sim.run.obs(100, "obs.rpc_call", json!({"nonce": nonce, "to": v, "route": route, "len": 15,
                 "digest": sim::digest(b"after the flood"), "hdigest": sim::headers_digest(&hm), "nheaders": 1,
                 "hsize": req_header_size(&route, &hm), "raw": true}));
-            let r: anyhow::Result<anemo::Response<Bytes>> = async {
-                let (mut tx, mut rx) = tokio::time::timeout(Duration::from_secs(5), conn.open_bi()).await??;
+            let exchange = async {
+                let (mut tx, mut rx) = conn.open_bi().await?;
                 tx.write_all(&bytes).await?;
                 tx.finish()?;
-                let data = tokio::time::timeout(Duration::from_secs(3), rx.read_to_end(1 << 20)).await??;
-                Ok(anemo::verif::direct::read_response(&Config::default(), &data[..]).await?)
-            }.await;
+                let data = rx.read_to_end(1 << 20).await?;
+                anyhow::Ok(anemo::verif::direct::read_response(&Config::default(), &data[..]).await?)
+            };
+            let r: anyhow::Result<anemo::Response<Bytes>> = match tokio::time::timeout(Duration::from_secs(3), exchange).await {
+                Ok(r) => r,
+                Err(_) => Err(anyhow::anyhow!("the request could not even be sent / was not answered")),
+            };
             match r {
                 Ok(resp) => sim.run.obs(100, "obs.rpc_result", json!({"nonce": nonce, "ok": true, "status": resp.status().to_u16(),
                     "len": resp.body().len(), "digest": sim::digest(resp.body()), "hdigest": sim::headers_digest(resp.headers()),
